@@ -103,7 +103,8 @@ class XslGen:
         if in_elem and allow_attr:
             while self.r.random() < 0.35 and len(out) < 2:
                 out.append({"i": "attribute", "name": [{"lit": True, "s": cps(self.r.choice(["p", "q", "x"]))}],
-                            "body": self.body(scope, 0, allow_attr=False, text_only=True) if self.r.random() < 0.6 else [{"i": "value-of", "sel": self.expr(scope, "any", d=1)}]})
+                            "body": (self.body(scope, 0, allow_attr=False, text_only=True) if self.r.random() < 0.6 else [{"i": "value-of", "sel": self.expr(scope, "any", d=1)}])
+                                    + ([{"i": "message"}] if self.r.random() < 0.1 else [])})
         n = self.r.choice([1, 1, 2, 2, 3]) if d > 0 else self.r.choice([0, 1, 1])
         if self.named and not out and not text_only and getattr(self, "free", 0) == 0 and self.r.random() < 0.12:
             # a call-template as the only child of its parent (Xalan runs such a callee "directly")
@@ -180,6 +181,8 @@ class XslGen:
                     "fmt": cps(self.r.choice(["1", "1", "a", "I", "1.1", "(1)"]))}
         if r < 0.97:
             return {"i": self.r.choice(["comment", "pi"]), "name": cps("t"), "body": [{"i": "text", "v": cps("c")}] if self.r.random() < 0.5 else [{"i": "value-of", "sel": self.expr(scope, "str", d=0)}]}
+        if r < 0.98:
+            return {"i": "message"}          # xsl:message (not terminating): writes nothing to the result tree, wherever it stands
         self.nvar = getattr(self, "nvar", 0) + 1
         name = "v%d" % self.nvar
         # sometimes a local variable carries the name of a parameter that named templates declare
